@@ -119,6 +119,12 @@ fn format_extraction<TCompilationProfile: CompilationProfile>(
         let new_line_behavior = token.item.line_behavior;
         let indent_change = token.item.indent_change;
 
+        if !new_line_behavior.should_keep() {
+            // A removed token must not affect the spacing or line breaks around it. Otherwise,
+            // formatting is not idempotent (e.g. a comma after a closing brace leaves an empty line.)
+            continue;
+        }
+
         if let IndentChange::Dedent = indent_change {
             indent -= 1;
         }
